@@ -1,0 +1,61 @@
+//go:build verif
+
+// Contracts for the govc verifier (/verif). This file contains comments only; it is compiled
+// only under the build tag "verif" and contributes no declarations.
+package ed25519
+
+// ---------------------------------------------------------------------------------------------
+// VRF proof decoding (C16). The curve arithmetic (edwards25519) is outside the verifier's reach: calls
+// into it are abstracted by havoc, so what is proved here is the byte-level part of verification --
+// every proof length is handled (short proofs are left-padded to 80 bytes, nothing indexes out of
+// range) -- and the accept/reject decision is named by uninterpreted functions of the three byte
+// strings so that wrappers can be proved to delegate to it unchanged.
+
+//@ smt (declare-fun vrf_accept (Bytes Bytes Bytes) Bool)
+//@ smt (declare-fun vrf_decodable (Bytes) Bool)
+
+// Header transport drops leading zero bytes; they are restored before decoding.
+//@ func tryZeroPadding
+//@   property C16
+//@   ensures [keep] len(pi) >= 80 ==> len(result) == len(pi) && ref(result) == ref(pi) && off(result) == off(pi)
+//@   ensures [len]  len(pi) < 80 ==> len(result) == 80 && fresh(result)
+//@   ensures [data] len(pi) < 80 ==> forall i int :: 0 <= i && i < len(pi) ==> result[80 - len(pi) + i] == pi[i]
+//@   ensures [zero] len(pi) < 80 ==> forall j int :: 0 <= j && j < 80 - len(pi) ==> result[j] == 0
+//@   modifies nothing
+
+//@ func decodeProof
+//@   property C16
+//@   requires len(pi) >= 80
+//@   ensures [ok]  err == nil ==> gamma != nil && c != nil && s != nil
+//@   ensures [c]   err == nil ==> forall i int :: 0 <= i && i < 16 ==> c[i] == pi[32 + i]
+//@   ensures [s]   err == nil ==> forall i int :: 0 <= i && i < 32 ==> s[i] == pi[48 + i]
+//@   ensures [err] err != nil ==> err == ErrDecodeError
+
+// isCanonical rejects exactly the encodings whose y coordinate is not reduced mod 2^255-19, i.e. the
+// 19 byte strings 0xed..0xff || 0xff^30 || 0x7f (sign bit ignored).
+//@ func isCanonical
+//@   property C16
+//@   loop 0: invariant i >= 0 && i <= 30 && ((c == 0) == ((s[31] & 127) == 127 && forall k int :: i < k && k <= 30 ==> s[k] == 255))
+//@   ensures [spec] (result == 0) == ((s[31] & 127) == 127 && (forall k int :: 1 <= k && k <= 30 ==> s[k] == 255) && s[0] >= 237)
+//@   ensures [bit]  result == 0 || result == 1
+//@   modifies nothing
+
+// The body is verified for panic-freedom on every proof/key/message length; the decision itself is the
+// assumed definition of vrf_accept / vrf_decodable.
+//@ func ECVRFVerify
+//@   property C16
+//@   ensures [accept!assumed] result0 == @vrf_accept(old(bytes(pk)), old(bytes(pi)), old(bytes(m)))
+//@   ensures [err!assumed]    (result1 == nil) == @vrf_decodable(old(bytes(pi)))
+//@   ensures [rejecterr]      result1 != nil ==> !result0
+
+// SHA-512 based hashing to the curve / of four points: pure functions of their arguments, outside the subset
+// (hash.Hash state, local array slicing); they cannot panic on any input (fixed-size array copies only).
+//@ func hashToCurve
+//@   property C16
+//@   option trusted
+//@   modifies nothing
+
+//@ func hashPoints
+//@   property C16
+//@   option trusted
+//@   modifies nothing
